@@ -152,7 +152,7 @@ def lemma_matrix_capacity(ctx, rule):
         assigns_size = False
         for abi, si, st in pb.iter_stmts():
             if st["k"] == "assign" and st["place"]["p"] and not pb.blocks[abi]["cleanup"]:
-                pth = U.field_path(sy.place(st["place"]))
+                pth = U.field_path(sy.dest(st["place"]))
                 if pth and pth[0] == "arg" and pth[1] == 1 and pth[2] == ["size"] and (cfg.dominates(grow_target, abi) or grow_target == abi):
                     assigns_size = True
         if found is not None and not assigns_size:
@@ -179,7 +179,7 @@ def lemma_matrix_capacity(ctx, rule):
     size_asg = []
     for abi, si, st in pb.iter_stmts():
         if st["k"] == "assign" and st["place"]["p"] and not pb.blocks[abi]["cleanup"]:
-            pth = U.field_path(sy.place(st["place"]))
+            pth = U.field_path(sy.dest(st["place"]))
             if pth and pth[0] == "arg" and pth[1] == 1 and pth[2] == ["size"]:
                 size_asg.append((abi, st, sy.rvalue(st["rv"])))
     g_ok = False
@@ -260,7 +260,7 @@ def lemma_flat_buffer(ctx, rule):
                         # the same value is stored to self.size in this body
                         for abi, si, st in b.iter_stmts():
                             if st["k"] == "assign" and st["place"]["p"]:
-                                pth = U.field_path(sy.place(st["place"]))
+                                pth = U.field_path(sy.dest(st["place"]))
                                 if pth and pth[2] == ["size"] and S.norm(sy.rvalue(st["rv"])) == S.norm(cnt[2]):
                                     good = True
                 if not good:
